@@ -69,6 +69,11 @@ def main():
             out['tests_pass'] = rct == 0
         else:
             out['tests_pass'] = None
+            try:   # keep the test result of an earlier full confirmation
+                prev = json.load(open(os.path.join(VERIF, 'seeded', sid, 'meta.json')))
+                out['tests'] = prev['confirmed']['existing_tests']
+            except Exception:
+                pass
         # run the check against the changed copy
         ver = os.path.join(tmp, 'verif')
         sh(['rsync', '-a', '--exclude', '.git', '--exclude', 'build/cases', '--exclude', 'replays', '--exclude', 'evidence',
